@@ -367,6 +367,9 @@ func (self *visitorUserNode) OnFloat64(v float64, n json.Number) error {
 		fieldDesc = top.state.fieldDesc
 	}
 
+	if fieldDesc.Type().IsList() && top.typ != arrStkType {
+		return newError(meta.ErrDismatchType, "repeated field needs an array", nil)
+	}
 	// packed list no need to write tag
 	if !fieldDesc.Type().IsList() {
 		if err = self.p.AppendTagByKind(fieldDesc.Number(), fieldDesc.Kind()); err != nil {
